@@ -64,15 +64,22 @@ seq_t dtw_warping_paths{{ suffix }}{{ suffix2 }}(seq_t *wps,
 
     {%- if "affinity" not in suffix %}
     if (settings->use_pruning || settings->only_ub) {
-        if (ndim == 1) {
-            p.max_dist = ub_euclidean(s1, l1, s2, l2);
-        } else {
-            p.max_dist = ub_euclidean_ndim(s1, l1, s2, l2, ndim);
-        }
         {%- if "euclidean" == inner_dist %}
+        if (ndim == 1) {
+            p.max_dist = ub_euclidean_euclidean(s1, l1, s2, l2);
+        } else {
+            p.max_dist = ub_euclidean_ndim_euclidean(s1, l1, s2, l2, ndim);
+        }
+        if (settings->only_ub) {
+            return p.max_dist;
+        }
         {%- else %}
-        p.max_dist = pow(p.max_dist, 2);
-        {%- endif %}
+        // No sqrt/pow round trip: the bound has to be at least the cost of the diagonal path
+        if (ndim == 1) {
+            p.max_dist = euclidean_distance_squared(s1, l1, s2, l2);
+        } else {
+            p.max_dist = euclidean_distance_ndim_squared(s1, l1, s2, l2, ndim);
+        }
         if (settings->only_ub) {
             if (keep_int_repr) {
                 return p.max_dist;
@@ -80,6 +87,7 @@ seq_t dtw_warping_paths{{ suffix }}{{ suffix2 }}(seq_t *wps,
                 return sqrt(p.max_dist);
             }
         }
+        {%- endif %}
     }
     {%- endif %}
 
